@@ -201,6 +201,12 @@ theorem plot_survival_accounts_for_data (h : Hist ℚ) (vs : List ℚ) (acc : Ac
       (first = true → 1 < vs.countP (fun x => decide (inBin h.bmin h.w h.imax x))) ∧ ∀ l ∈ rows.getLast?, l.2 = vs.length :=
   plotSurvival_accounts h vs acc
 
+/-- `esl_histogram_PlotQQ` (observed part), every numeric class: on a well-formed histogram with `0 ≤ cmin ≤ nb` and `emin ≤ nb` (guaranteed by
+    `expected_tail_emin_in_range`) it reads only inside `obs[]` and prints one row per bin `bbase..imax-1`. -/
+theorem plot_qq_in_bounds {α : Type} [Num α] (h : Hist α) (hwf : h.WF) (hidx : IdxOK h) (hc : 0 ≤ h.cmin) (hcn : h.cmin ≤ h.nb) (e : Expect α)
+    (he : e.emin ≤ h.nb) : ∃ rows, h.plotQQ e = .val rows ∧ rows.length = (h.imax - goodnessBase h e).toNat :=
+  plotQQ_ok h hwf hidx hc hcn e he
+
 /-- `esl_histogram_DeclareRounding` changes nothing but the flag -/
 theorem declare_rounding_keeps_the_data (h : Hist ℚ) (vs : List ℚ) (acc : Accounts h vs) :
     Accounts h.declareRounding vs ∧ h.declareRounding.obs = h.obs ∧ h.declareRounding.isRounded = true :=
@@ -321,7 +327,7 @@ theorem cg_return_means_stopping_rule {α : Type} [Num α] (cfg : MinCfg α) (f 
   cgd_post cfg f df x0
 
 /-- termination: the main loop (`max_iterations`) and `bracket()` (`brack_maxiter`) are capped in the code and total in the model; the one
-    uncapped loop is `brent()`'s `while (1)`: the model's `.hang` outcome arises ONLY from a line search exceeding 100000 passes
+    uncapped loop is `brent()`'s `while (1)`: the model's `.hang` outcome arises ONLY from a line search exceeding 4·10⁸ passes
     (never observed; the C side is watched by a timer). Since bad2f4e a non-finite interval ends that loop at once. -/
 theorem cg_hangs_only_in_brent {α : Type} [Num α] (cfg : MinCfg α) (f : Array α → α) (df : Option (Array α → Array α)) (x0 : Array α)
     (h : (cgd cfg f df x0).1 = .hang) : ∃ (fline : α → α) (a b : α), brentCG cfg fline a b = none :=
